@@ -39,6 +39,37 @@ def exc_signature(exc, roots=("mwlib", "qs")):
     return "%s@%s" % (type(exc).__name__, inner or "?")
 
 
+_sqlite_open = []
+
+
+def track_sqlitedicts():
+    """mwlib never closes some of its SqliteDicts (one OS thread each): harmless in its one-shot processes, but a long-lived
+    worker that runs thousands of cases runs out of threads.  Track every instance so that it can be closed after the case."""
+    try:
+        import sqlitedict
+    except ImportError:
+        return
+    if getattr(sqlitedict.SqliteDict, "_verif_tracked", False):
+        return
+    orig = sqlitedict.SqliteDict.__init__
+
+    def __init__(self, *a, **k):
+        orig(self, *a, **k)
+        _sqlite_open.append(self)
+    sqlitedict.SqliteDict.__init__ = __init__
+    sqlitedict.SqliteDict._verif_tracked = True
+
+
+def close_leaked_sqlitedicts():
+    while _sqlite_open:
+        d = _sqlite_open.pop()
+        try:
+            d.close()
+        except BaseException as e:
+            if isinstance(e, poolmod.CaseTimeout):
+                raise
+
+
 class InputProp:
     id = "C00"
     level = "model_checking"
@@ -77,6 +108,7 @@ class InputProp:
         lo, hi = payload["lo"], payload["hi"]
         skip = set(payload.get("skip", ()))
         space = self.space
+        track_sqlitedicts()
         out = {"n": 0, "steps": 0, "keys": set(), "sig_counts": Counter(), "viol": [], "counters": Counter(),
                "samples": [], "collect": []}
         t_chunk = time.time()
@@ -95,6 +127,7 @@ class InputProp:
                 out["hangs"] = out.get("hangs", 0) + 1
             finally:
                 ctx.end()
+                close_leaked_sqlitedicts()
             if out.get("hangs", 0) >= 3:
                 out["aborted_at"] = idx  # a chunk in which everything hangs is not worth finishing
                 out["n"] += 1
